@@ -112,7 +112,14 @@ def _space_for(rng, algo, negative, gp):
   if gp:
     return gen.gen_space(rng, 1, 4, max_int_width=300)
   if algo == 'CMA_ES' and not negative:
-    return gen.gen_space(rng, 2, 6, kinds=['DOUBLE'])
+    desc = gen.gen_space(rng, 2, 6, kinds=['DOUBLE'])
+    if rng.random() < 0.4:
+      # CMA-ES emits scaled features outside [0, 1]; with an extreme log-scaled range
+      # un-scaling them must still end inside the bounds
+      lo, hi = rng.choice([(1e-300, 1e300), (1e-307, 1e307), (1e-200, 1e-150), (1e150, 1e200)])
+      desc.insert(rng.randint(0, len(desc)), {'name': 'xtr', 'kind': 'DOUBLE', 'lo': lo, 'hi': hi,
+                                              'scale': rng.choice(['LOG', 'REVERSE_LOG', 'REVERSE_LOG']), 'default': None})
+    return desc
   if algo in ('BOCS', 'HARMONICA') and not negative:
     n = rng.choice([1, 2, 2, 3, 3, 4, 5, 6, 7])
     return gen.gen_space(rng, n, n, kinds=['BOOL'])
@@ -129,7 +136,25 @@ def _space_for(rng, algo, negative, gp):
     desc = desc + other
     rng.shuffle(desc)
     return desc
-  return gen.gen_space(rng, 1, 6, **kw)
+  desc = gen.gen_space(rng, 1, 6, **kw)
+  _add_hostile_params(rng, algo, desc)
+  return desc
+
+
+def _add_hostile_params(rng, algo, desc):
+  """Parameter shapes at the edge of what float32 features / scaled features can carry."""
+  if algo in CONTINUIFYING and rng.random() < 0.2:
+    # integer bounds beyond 2^24: un-scaling a float32 feature lands off the integer
+    # grid and possibly outside the bounds; only snapping to the feasible set saves it
+    lo = rng.choice([16777217, -33554435, 2 ** 24 + 3, 2 ** 30 + 1])
+    hi = lo + rng.choice([2, 4, 7])
+    desc.insert(rng.randint(0, len(desc)), {'name': 'bigint', 'kind': 'INTEGER', 'lo': lo, 'hi': hi,
+                                            'scale': rng.choice([None, 'LINEAR']), 'default': None})
+  if rng.random() < 0.12:
+    lo, hi = rng.choice(EXTREME_BOUNDS)
+    scale = rng.choice([None, 'LINEAR', 'LOG', 'REVERSE_LOG']) if lo > 0 else rng.choice([None, 'LINEAR'])
+    desc.insert(rng.randint(0, len(desc)), {'name': 'xtr', 'kind': 'DOUBLE', 'lo': lo, 'hi': hi,
+                                            'scale': scale, 'default': None})
 
 
 def _metrics_for(rng, algo, negative, gp):
@@ -232,6 +257,12 @@ def gen_case(rng, algo, route, tier, gp=False, name=None):
   desc = _space_for(rng, algo, negative, gp)
   metrics = _metrics_for(rng, algo, negative, gp)
   opts = _opts_for(rng, algo, route, len(desc), gp, tier)
+  if algo in ('EAGLE_STRATEGY', 'NSGA2') or opts.get('dtype') == 'float32':
+    # these compute in float32: bounds beyond its range (3.4e38) are not representable
+    # in the designer's dtype, nothing is demanded there
+    desc = [p for p in desc if p['name'] != 'xtr']
+    if not desc:
+      desc = gen.gen_space(rng, 1, 3)
   mcls = rng.choice(['uniform', 'uniform', 'constant', 'big', 'integer'])
   hist = _history_for(rng, algo, desc, len(metrics), route, gp, mcls)
   if negative and algo in ('BOCS', 'HARMONICA') and any(p['kind'] != 'BOOL' for p in desc) and any(
